@@ -95,9 +95,13 @@ def run(ck, m):
             if cname in ("RenderArgs", "ArgsNamespace") and fn.name in ("update", "convert", "__or__", "__ror__", "__pos__", "to_render_args"):
                 for r in body_walk(fn):
                     if isinstance(r, ast.Return) and r.value is not None:
+                        def _ok_ret(v):
+                            if isinstance(v, ast.IfExp):
+                                return _ok_ret(v.body) and _ok_ret(v.orelse)
+                            return norm(v) in ("self", "NotImplemented") or (isinstance(v, ast.Call) and (call_name(v) or "").split(".")[-1] in ("RenderArgs", "__or__")) or (
+                                isinstance(v, ast.Name) and v.id in fresh)
                         v = r.value
-                        ok = norm(v) in ("self", "NotImplemented") or (isinstance(v, ast.Call) and (call_name(v) or "").split(".")[-1] in ("RenderArgs", "__or__")) or (
-                            isinstance(v, ast.Name) and v.id in fresh)
+                        ok = _ok_ret(v)
                         ck.ob("R1", r, ok, f"{cname}.{fn.name} must return self (no change) or a newly constructed object; returns `{short(v, 50)}`", stmt=f"{cname}.{fn.name}: {short(r, 70)}")
     ck.expect(n1 >= 25, f"expected >= 25 non-constructor methods of the immutable classes, found {n1}")
     # __setattr__ of ArgsNamespace always raises
